@@ -25,6 +25,9 @@
 (*             "operand"  Entry(Not p) = Entry(p)                          *)
 (*   SymEntry  "index"    Symbol also starts at IndexExpr (f[T])           *)
 (*             "plain"    only Ident / SelectorExpr                        *)
+(*   AnyEntry  "lists"    a catch-all (Any, name, nil, Not, ...) can also   *)
+(*                        start at the list carriers BlockStmt / FieldList *)
+(*             "named"    only at the node types a pattern can name        *)
 (*   UseMode   "alias"    a use of an alias counts as a use of its target  *)
 (*             "direct"   only the named object itself                     *)
 (*   CalleeMode "any"     a conversion T(x) is a call site of T            *)
@@ -36,7 +39,7 @@ CONSTANTS
   AllTypes,    \* the node types a pattern can name (parser.go: allTypes)
   SymTab,      \* symbol id -> [path, type, ident, kind]   kind \in {"func","method","type","var"}
   AliasOf,     \* alias symbol id -> target symbol id (function with a possibly empty domain)
-  NotEntry, SymEntry, UseMode, CalleeMode
+  NotEntry, SymEntry, AnyEntry, UseMode, CalleeMode
 
 VARIABLES pi, ni, res
 vars == <<pi, ni, res>>
@@ -114,16 +117,18 @@ MFields(ps, vs, i) == IF i > Len(ps) THEN TRUE ELSE M(ps[i], vs[i]) /\ MFields(p
 -----------------------------------------------------------------------------
 (* collectEntryNodes + nodeToASTTypes                                      *)
 (***************************************************************************)
+ListCarriers == {"BlockStmt", "FieldList"}
+CatchAll == IF AnyEntry = "lists" THEN AllTypes \cup ListCarriers ELSE AllTypes
 RECURSIVE Entry(_)
 Entry(p) ==
   CASE p.k = "or"   -> UNION { Entry(p.alts[i]) : i \in 1..Len(p.alts) }
-    [] p.k = "not"  -> IF NotEntry = "all" THEN AllTypes ELSE Entry(p.a)
+    [] p.k = "not"  -> IF NotEntry = "all" THEN CatchAll ELSE Entry(p.a)
     [] p.k = "bind" -> Entry(p.sub)
-    [] p.k \in {"ref", "pnil", "any"} -> AllTypes
+    [] p.k \in {"ref", "pnil", "any"} -> CatchAll
     [] p.k \in {"str", "symname"} -> {}
-    [] p.k \in {"nil", "cons"} -> {"BlockStmt", "FieldList"}
+    [] p.k \in {"nil", "cons"} -> ListCarriers
     [] p.k \in {"builtin", "obj"} -> {"Ident"}
-    [] p.k = "sym"  -> IF SymEntry = "index" THEN {"Ident", "SelectorExpr", "IndexExpr"} ELSE {"Ident", "SelectorExpr"}
+    [] p.k = "sym"  -> IF SymEntry = "index" THEN {"Ident", "SelectorExpr", "IndexExpr", "IndexListExpr"} ELSE {"Ident", "SelectorExpr"}
     [] p.k = "intlit" -> {"BasicLit", "UnaryExpr"}
     [] p.k = "node" -> {p.ty}
 
@@ -262,7 +267,8 @@ RootCallsSound == (res.done /\ res.m) => res.root
 (* in real packages by the probe analyzer).                                *)
 (***************************************************************************)
 EmitPats(ps) ==
-  \A i \in 1..Len(ps) :
+  /\ PrintT("CASE " \o ToJson([d |-> "symtab", v |-> SymTab]))
+  /\ \A i \in 1..Len(ps) :
      PrintT("CASE " \o ToJson([d |-> "pat", i |-> i, v |-> ps[i], entry |-> Entry(ps[i]),
                                syms |-> SymsOf(ps[i]), root |-> RootCalls(ps[i])]))
 =============================================================================
